@@ -255,6 +255,18 @@ def main(run):
     # the definition itself, not only recombined
     hp_ = c01.hollow_defs(run.scratch.sub("plugins"))
     synth = {hp_[nm_]: c01.hollow_leaf(nm_.endswith("_fq")) for nm_ in ("verif_hollow_str", "verif_hollow_fq")}
+    # ... and the same definition written in Python (evaluated by kernelpy's own dispersity loop)
+    pypath_ = os.path.join(os.path.dirname(hp_["verif_hollow_str"]), "verif_hollow_py.py")
+    with open(pypath_, "w") as f_:
+        f_.write(c01._HOLLOW_HEAD.format(name="verif_hollow_py", flavour="python functions") + (
+            "def form_volume(radius, thickness):\n    return 4.18879020478639*(radius+thickness)**3\n"
+            "def shell_volume(radius, thickness):\n    return 4.18879020478639*((radius+thickness)**3 - radius**3)\n"
+            "def radius_effective(mode, radius, thickness):\n    return radius + thickness if mode == 1 else radius\n"
+            "def Iq(q, sld, sld_solvent, radius, thickness, fuzz):\n"
+            "    vs = 4.18879020478639*((radius+thickness)**3 - radius**3)\n"
+            "    a = (sld - sld_solvent)*vs/(1.0 + q*q*(radius+thickness)*(radius+thickness)*(1.0+fuzz))\n"
+            "    return 1e-4*a*a\nIq.vectorized = True\n"))
+    synth[pypath_] = c01.hollow_leaf(False)
     pnames = list(pnames) + sorted(synth)
     stats_synth = [0]
     cases, metas = [], []
@@ -448,6 +460,10 @@ def main(run):
                             wn += w; wr += w * float(r1[2]); wsh += w * float(r1[3]); wfo += w * float(r1[3]) * float(r1[4])
                         evals += npts_
                         stats["brute_force_reff"] = stats.get("brute_force_reff", 0) + 1
+                        ratio_c = float(ratio) if not jit_ else float(call_Fq(pk, fq, cutoff=0.0)[4])
+                        if wn > 0 and wsh > 0 and abs(wfo / wsh - ratio_c) > 1e-9 * abs(ratio_c):
+                            run.add(Finding("C07:ratio:%s" % pn, "%s (%s, mode %d, mesh of %d size points): call_Fq reports <V_form>/<V_shell> = %.12g; the weighted means over the mesh give %.12g" % (
+                                pn, dim, mode, npts_, ratio_c, wfo / wsh), dict(desc, ratio=ratio_c, brute_force_ratio=wfo / wsh)))
                         if wn > 0 and (abs(wr / wn - reff_c) > 1e-9 * abs(reff_c) + 1e-300 or abs(wsh / wn - shell_c) > 1e-9 * abs(shell_c)):
                             run.add(Finding("C07:reff:%s" % pn, "%s (%s, mode %d, mesh of %d size points%s): call_Fq reports R_eff = %.12g, V_shell = %.12g; the weighted means over the mesh are %.12g, %.12g" % (
                                 pn, dim, mode, npts_, " x angular jitter" if jit_ else "", reff_c, shell_c, wr / wn, wsh / wn), dict(desc, reff=float(reff_c), brute_force_reff=wr / wn)))
